@@ -248,6 +248,12 @@ pub fn run_script(cfg: &OptCfg, init: &[f64], bounds: &[(f64, f64)], kt_zero: bo
 
 /// as run_script, with the mode of the second (shadow) model chosen by the caller
 pub fn run_script_shadow(cfg: &OptCfg, init: &[f64], bounds: &[(f64, f64)], kt_zero: bool, use_expectations: bool, shadow_mode: crate::probe::Mode, policy: Box<dyn Policy>) -> RunOut {
+    run_script_twins(cfg, init, bounds, &[], kt_zero, use_expectations, shadow_mode, policy)
+}
+
+/// as run_script_shadow; the values listed in `twins` get a second basis handle each
+pub fn run_script_twins(cfg: &OptCfg, init: &[f64], bounds: &[(f64, f64)], twins: &[usize], kt_zero: bool, use_expectations: bool, shadow_mode: crate::probe::Mode, policy: Box<dyn Policy>) -> RunOut {
+    let n_values = init.len();
     let mut model = Model::new(kt_zero, use_expectations);
     model.keep_steps = true;
     let brain: SharedBrain = new_brain(model, policy);
@@ -256,12 +262,13 @@ pub fn run_script_shadow(cfg: &OptCfg, init: &[f64], bounds: &[(f64, f64)], kt_z
         sh.keep_steps = true;
         brain.lock().unwrap().shadow = Some(sh);
     }
-    let script = Script::new(init, bounds, brain.clone());
+    let script = Script::new(init, bounds, brain.clone()).with_twins(twins);
     let cfg2 = cfg.clone();
     let result = catch_unwind(AssertUnwindSafe(move || {
         let opt = cfg2.build();
         let out = opt.optimise_state(script);
-        let params = crate::probe::params_of_state(&out);
+        let mut params = crate::probe::params_of_state(&out);
+        params.truncate(n_values);
         (params, out)
     }));
     let (panicked, returned_params, keep) = match result {
